@@ -3,10 +3,10 @@
 # Input:  /tmp/wt_<PROP>/seed_out/patch<k>.diff, demo<k>.py, notes<k>.md
 # Output: /verif/seeded/<PROP>-<k>/{patch.diff,demo.py,notes.md,meta.json,checks.txt}
 set -u
-P=$1; K=$2
-SRC=/tmp/wt_$P/seed_out
-WT=/tmp/sv_${P}_$K
-OUT=/verif/seeded/$P-$K
+P=$1; K=$2; ROUND=${3:-1}
+if [ "$ROUND" = "1" ]; then SRC=/tmp/wt_$P/seed_out; TAG=$P-$K; else SRC=/tmp/wt${ROUND}_$P/seed_out; TAG=$P-r$ROUND-$K; fi
+WT=/tmp/sv_${TAG}
+OUT=/verif/seeded/$TAG
 [ -f $SRC/patch$K.diff ] || { echo "no patch $SRC/patch$K.diff"; exit 3; }
 rm -rf $WT; git -C /repo worktree add -q --detach $WT HEAD || exit 3
 cd $WT
@@ -28,16 +28,17 @@ for f in $WT/chk/*.rc; do id=$(basename $f .rc); rc=$(cat $f);
   if [ "$rc" = "2" ]; then undec="$undec $id"; grep -E "^UNDECIDED|^ANALYSIS-ERROR" $WT/chk/$id.log | cut -c1-300 | sed "s/^/$id: /" >> $OUT/checks.txt; fi
 done
 tail -3 $WT/demo_with.log | cut -c1-300 > $OUT/demo_with_change.txt
-/venv/bin/python - "$P" "$K" "$res_apply" "$tests" "$demo_with" "$demo_without" "$fired" "$undec" <<'PY'
+/venv/bin/python - "$P" "$K" "$res_apply" "$tests" "$demo_with" "$demo_without" "$fired" "$undec" "$TAG" <<'PY'
 import json,sys
-P,K,app,tests,dw,dwo,fired,undec=sys.argv[1:9]
+P,K,app,tests,dw,dwo,fired,undec,TAG=sys.argv[1:10]
 meta={"property":P,"variant":int(K),"patch_applies":app=="ok","tests_with_change":tests.strip(),
       "demo_exit_with_change":int(dw),"demo_exit_without_change":int(dwo),
       "confirmed": app=="ok" and "70 passed" in tests and int(dw)!=0 and int(dwo)==0,
       "checks_reporting_violation":fired.split(),"checks_analysis_incomplete":undec.split(),
       "detected_by_own_property_check": P in fired.split(),
       "how_run":"sa/seedcheck.sh %s %s: patch applied in a scratch worktree of /repo HEAD; pytest tests; demo with/without the change; every check run with --repo <worktree> --scratch"%(P,K)}
-json.dump(meta,open("/verif/seeded/%s-%s/meta.json"%(P,K),"w"),indent=1)
+meta["round"]=2 if "-r2-" in TAG else 1
+json.dump(meta,open("/verif/seeded/%s/meta.json"%TAG,"w"),indent=1)
 print(json.dumps(meta))
 PY
 cd /; git -C /repo worktree remove --force $WT
